@@ -478,18 +478,20 @@ class ImplWorld:
     def observe(self):
         out = []
         for i, it in self.items.items():
-            s = '%d %s' % (i, self._core_obs(it))
-            if getattr(it, 'charge', None) is not None:
-                s += ' c ' + self._core_obs(it.charge)
-            if self.sh[i]['kind'] == 5:
-                s += ' side ' + (','.join('%d=%s:%d' % (e, C.q(d.chance), d.status)
-                                          for e, d in it.side_effects.items()) or '-')
-            if self.sh[i]['kind'] == 4:
-                try:
-                    s += ' abil ' + (','.join('%d=%d' % (a, st) for a, st in it.abilities.items())
-                                     or '-')
-                except KeyError:
-                    s += ' abil KeyError'
+            try:
+                s = '%d %s' % (i, self._core_obs(it))
+                if getattr(it, 'charge', None) is not None:
+                    s += ' c ' + self._core_obs(it.charge)
+                if self.sh[i]['kind'] == 5:
+                    s += ' side ' + (','.join('%d=%s:%d' % (e, C.q(d.chance), d.status)
+                                              for e, d in it.side_effects.items()) or '-')
+                if self.sh[i]['kind'] == 4:
+                    try:
+                        s += ' abil ' + (','.join('%d=%d' % (a, st) for a, st in it.abilities.items()) or '-')
+                    except KeyError:
+                        s += ' abil KeyError'
+            except Exception as e:      # a getter that raises is an observation too
+                s = '%d observation raises %s' % (i, type(e).__name__)
             out.append(s)
         return out
 
@@ -598,7 +600,11 @@ def run_history(desc, ops, rep=None, compare=True, oracle=True, tag=''):
         status = w.apply(op)
         case = {'universe': desc, 'ops': ops[:k + 1], 'step': k, 'op': op}
         if oracle:
-            w.check(op, status, lambda what: found.append(('violate', what, case)))
+            try:
+                w.check(op, status, lambda what: found.append(('violate', what, case)))
+            except Exception as e:
+                found.append(('violate', 'reading effects / side effects / abilities after %s raised %s' % (
+                    op['op'], type(e).__name__), case))
             if status != 'ok' and EXPECTED_ERRORS.get(op['op']) != status:
                 found.append(('violate', 'op %s raised %s' % (op['op'], status), case))
         if compare:
